@@ -6,6 +6,7 @@
 -/
 import Oryx.Proofs.WsSession
 import Oryx.Proofs.WsHandshake
+import Oryx.Spec.Sha1
 namespace Oryx.Props.C13
 open Oryx Oryx.WsWrite Oryx.Spec.Ws Oryx.Gen.Websocket
 
@@ -213,6 +214,16 @@ theorem hs_agree (ak : Bytes → Bytes) (d : Dialer) (u : Upgrader) (key : Bytes
         some (.accept lines (d.enableCompression && u.enableCompression) sub,
               some (.accept (d.enableCompression && u.enableCompression) sub)) :=
   handshake_agree ak d u key reqHdr hkey horigin huser
+
+/-- The accept key as RFC 6455 section 4.2.2 defines it (Spec.Sha1: SHA-1 from FIPS 180-4 and base64 from RFC 4648,
+written from the standards) on the example of RFC 6455 section 1.3. The driver compares `computeAcceptKey` with this
+specification on every key it uses. -/
+theorem hs_accept_key_rfc_sample :
+    Oryx.Spec.Sha1.acceptKey (Oryx.Model.WsHs.ascii "dGhlIHNhbXBsZSBub25jZQ==") = Oryx.Model.WsHs.ascii "s3pPLMBiTxaQ9kYGzzhZRbK+xOo=" := by
+  decide +kernel
+
+/-- gate: the specification's GUID is the one util.go hashes -/
+example : Oryx.Spec.Sha1.guid = Oryx.Model.WsHs.ascii Oryx.Gen.Websocket.keyGUID := by decide +kernel
 
 /-- gate: the GUID hashed into the accept key is RFC 6455's (regenerated from util.go on every run) -/
 example : Oryx.Gen.Websocket.keyGUID = "258EAFA5-E914-47DA-95CA-C5AB0DC85B11" := by decide
